@@ -64,6 +64,9 @@ def field_plan(i, f, salt, as_parent=False):
     elif kind == "darr":
         dv = [1 + i, 2 + i]
         vals = dict(default=dv, zero=[], other=[5 + i, 6 + i], otherlen=[5 + i, 6 + i, 7 + i])
+        if (salt + i) % 3 == 0:      # a one-element default and a longer value repeating that element: different arrays that
+            dv = [4 + i]            # NumPy broadcasting would call equal
+            vals = dict(default=dv, zero=[], other=[9 + i], otherlen=[4 + i, 4 + i, 4 + i])
         base, conv = T[:], (lambda v: list(v))
     elif kind == "nest":
         vals = dict(zero=dict(p=5, q=[0.0, 0.0]), other=dict(p=1, q=[1.0, 2.0]))
